@@ -1085,6 +1085,10 @@ class Ev:
                 and args[0].const_value().denominator == 1 and args[0].const_value() >= 1:
             # m.group(k) of a match object is m.groups()[k - 1]
             return self.subscript(P.atom(("call", P.atom(("attr", ca[1], "groups")), ())), (P.const(int(args[0].const_value()) - 1),))
+        if ca and ca[0] == "attr" and ca[2] in ("findall", "finditer") and len(args) == 1 and not kwargs and ca[1].as_atom() \
+                and ca[1].as_atom()[0] == "name" and ca[1].as_atom()[1].isupper() and ca[1].as_atom()[1] not in self.param_names:
+            # CONSTANT_PATTERN.findall(s) is re.findall(CONSTANT_PATTERN, s) (an all-capitals module constant; .findall of other objects is left alone)
+            return P.atom(("call", P.name("re." + ca[2]), (ca[1], args[0])))
         if ca and ca[0] == "attr" and ca[2] in ("match", "fullmatch", "search") and len(args) == 1 and not kwargs:
             # PATTERN.match(s) of a compiled pattern is re.match(PATTERN, s) (re.compile("...").match(s) is re.match("...", s))
             ba = ca[1].as_atom()
